@@ -37,5 +37,6 @@ LEVEL_TEXT = ("Theorems: a session-wide withdrawal (single and bulk) changes exa
               "refutation: peers differing only in BGP id / policy flag / distinguisher share an id (known finding C02-1). Tied to the real code by generated "
               "histories over a peer pool whose members differ in single header fields.")
 DESIGN_REF = "DESIGN.md section 6, C02"
-LEVEL_NOTE = "Trusted: as C01. The wire-level isolation statement holds only for peers with distinct (address, AS, RIB view) per router: C02_isolation_partial; the rest is known finding C02-1."
+LEVEL_NOTE = ("Trusted: as C01. The wire-level isolation statement holds only for peers with distinct (address, AS, RIB view) per router: C02_isolation_partial; the rest is known finding C02-1. On the pipeline model it is proved for every history in which no two wire identities share an ingress id "
+              "(Pipe/PipeCompose.v: C02_isolation_by_wire_identity, C02_pipeline_isolation).")
 TECHNIQUE = "Coq frame lemmas over the RIB model + refutation witness + model/implementation correspondence"
